@@ -95,6 +95,16 @@ pub fn gen_tree(rng: &mut Rng) -> Tree {
         }
     }
     fill(rng, &mut t, vec![], 0);
+    // one stem under two extensions of a multi-extension type, with another matching file listed
+    // between them (archives list in member order): the duplicate id is not adjacent before sorting
+    if rng.chance(2, 3) {
+        let at: Vec<String> = if t.dirs.len() > 1 && rng.chance(1, 2) { t.dirs[1].clone() } else { vec![] };
+        for (stem, ext) in [("s1", "p"), ("t1", "q"), ("s1", "q"), ("t1", "r")] {
+            let mut id = at.clone();
+            id.push(stem.to_string());
+            t.files.push((id, ext.to_string(), b"3".to_vec()));
+        }
+    }
     t
 }
 
